@@ -32,7 +32,7 @@ def specKey (k : Node) (s : Seg) : KeyR :=
     -- the text still has to parse
     match kindOfName k.typu with
     | some (.sint _) => if s.pi.isSome then .never else .perr
-    | some (.uint _) => if k.typn == "byte" then .never else if s.pu.isSome then .never else .perr
+    | some (.uint _) => if k.typn == "byte" || k.typu == "byte" then .never else if s.pu.isSome then .never else .perr
     | some (.float _) => (match s.pf with | .err => .perr | _ => .never)
     | some .bool => if s.pb.isSome then .never else .perr
     | some .string => .never
@@ -46,14 +46,14 @@ def specKey (k : Node) (s : Seg) : KeyR :=
        | some i => if inRangeS b i then .key (.int i) else .unspec
        | none => .perr)
   | some (.uint b) =>
-      if k.typn == "byte" then .unspec
+      if k.typn == "byte" || k.typu == "byte" then .unspec     -- the `byte` snippet takes the first byte of the text
       else
       (match s.pu with
        | some u => if inRangeU b u then .key (.uint u) else .unspec
        | none => .perr)
-  | some (.float _) =>
+  | some (.float b) =>
       (match s.pf with
-       | .ok fx => .key (.float fx)
+       | .ok fx => .key (.float (if b == 32 then roundF32 fx else fx))    -- Go conversion float32(t)
        | .inexact => .unspec
        | .err => .perr)
   | none => .unspec
